@@ -207,6 +207,8 @@ def _job(args):
         if r["status"] == "rejected":
             continue
         out["samples"] += 1
+        if len(out.setdefault("sample_inputs", [])) < 2:
+            out["sample_inputs"].append({"inputs": _jsonable(r["drawn"]), "clauses": [[rec[0], rec[1]] for rec in r["records"]][:6]})
         key = hashlib.sha1(json.dumps(r["drawn"], sort_keys=True, default=str).encode()).hexdigest()
         distinct.add(key)
         if r["status"] in ("crash", "unsupported"):
@@ -228,6 +230,14 @@ def _job(args):
         out["exhaustive"] = True
     out["wall_s"] = round(time.time() - t0, 3)
     return out
+
+
+def _jsonable(x):
+    try:
+        json.dumps(x)
+        return x
+    except TypeError:
+        return json.loads(json.dumps(x, default=str))
 
 
 def _j(p):
@@ -324,6 +334,9 @@ def decide(prop, tier, seed, units, results, wall):
             o = r["obligations"][0]
             sample_obs.append({"obligation": "%s::%s" % (tag, o["label"]), "path": o["path"], "status": o["status"],
                                "backend": o["solver"], "seconds": o["time"]})
+        if r["level"] != "proof" and len(sample_obs) < 8:
+            for si in r.get("sample_inputs", [])[:1]:
+                sample_obs.append({"bounded_case": tag, "inputs": si["inputs"], "clauses_checked": si["clauses"]})
         for rp in r["replays"]:
             violations.append({"unit": tag, "obligation": rp["label"], "inputs": rp["inputs"],
                                "confirmed": rp["confirmed"], "observed": rp["failed"], "source": "counter-model",
